@@ -237,11 +237,120 @@ def run_cases(run: lib.Run, audit: dict, scale: int = 1):
                     run.spec_failures.append({**case, "spec": "an evaluation with no replacement step inside its span returned another policy's decision"})
 
 
+def inside_decision_probes(run: lib.Run) -> None:
+    """an evaluation paused INSIDE its decision (at every call the compiled decision function makes to the matcher / the evaluator)
+    while, on another thread, another request is evaluated to completion — with or without a replacement in between.  The paused
+    evaluation, once released, returns the complete decision of the old or of the new policy for ITS OWN request; the other one
+    returns the decision of the policy current when it started; afterwards the cache serves the current policy's decisions."""
+    import contextvars
+    import threading
+    from rbacx.core import compiler as rcompiler
+    who: contextvars.ContextVar = contextvars.ContextVar("verif_c09_probe", default=None)
+
+    def mk(tag, e_read, e_write):
+        return {"algorithm": "deny-overrides", "rules": [
+            {"id": f"{tag}-read", "effect": e_read, "actions": ["read"], "resource": {"type": "doc"}},
+            {"id": f"{tag}-write", "effect": e_write, "actions": ["write"], "resource": {"type": "file", "id": "7"}},
+            {"id": f"{tag}-any", "effect": "permit", "actions": ["*"], "resource": {"type": "*"}}]}
+    A, B = mk("A", "permit", "deny"), mk("B", "deny", "permit")
+    q1 = (Subject("u"), Action("read"), Resource("doc", "1"), Context({}))
+    q2 = (Subject("u"), Action("write"), Resource("file", "7"), Context({}))
+    proj = lambda d: (d.allowed, d.effect, d.rule_id, d.reason)  # noqa: E731
+    alone = {(n, i): proj(Guard(copy.deepcopy(p)).evaluate_sync(*q)) for n, p in (("A", A), ("B", B)) for i, q in ((1, q1), (2, q2))}
+    names = [n for n in ("match_resource", "evaluate_policy") if hasattr(rcompiler, n)]
+    saved = {n: getattr(rcompiler, n) for n in names}
+    for replace in (False, True):
+        for cached in (False, True):
+            # how many pause points does the first evaluation have?
+            calls = [0]
+
+            def counting(orig):
+                def w(*a, **k):
+                    if who.get() == 1:
+                        calls[0] += 1
+                    return orig(*a, **k)
+                return w
+            g = Guard(copy.deepcopy(A), cache=DefaultInMemoryCache(64) if cached else None)
+            for n in names:
+                setattr(rcompiler, n, counting(saved[n]))
+            try:
+                who.set(1)
+                g.evaluate_sync(*q1)
+            finally:
+                who.set(None)
+                for n in names:
+                    setattr(rcompiler, n, saved[n])
+            total = calls[0]
+            run.count("inside-decision:pause-points", total)
+            for k in range(1, total + 1):
+                g = Guard(copy.deepcopy(A), cache=DefaultInMemoryCache(64) if cached else None)
+                reached, release = threading.Event(), threading.Event()
+                n_calls = [0]
+
+                def pausing(orig):
+                    def w(*a, **kw):
+                        if who.get() == 1:
+                            n_calls[0] += 1
+                            if n_calls[0] == k:
+                                reached.set()
+                                release.wait(10)
+                        return orig(*a, **kw)
+                    return w
+                box: dict = {}
+
+                def first():
+                    who.set(1)
+                    try:
+                        box["d1"] = proj(g.evaluate_sync(*q1))
+                    except Exception as e:  # noqa: BLE001
+                        box["d1"] = ("raised", type(e).__name__)
+                for n in names:
+                    setattr(rcompiler, n, pausing(saved[n]))
+                try:
+                    t = threading.Thread(target=first, daemon=True)
+                    t.start()
+                    if not reached.wait(10):
+                        release.set()
+                        t.join(10)
+                        continue
+                    try:
+                        if replace:
+                            g.set_policy(copy.deepcopy(B))
+                        d2 = proj(g.evaluate_sync(*q2))
+                    except Exception as e:  # noqa: BLE001
+                        d2 = ("raised", type(e).__name__)
+                    release.set()
+                    t.join(10)
+                finally:
+                    release.set()
+                    for n in names:
+                        setattr(rcompiler, n, saved[n])
+                cur = "B" if replace else "A"
+                later = [proj(g.evaluate_sync(*q1)), proj(g.evaluate_sync(*q2))]
+                run.evaluations += 1
+                run.count("inside-decision:probe")
+                why = None
+                if box.get("d1") not in ({alone[("A", 1)], alone[("B", 1)]} if replace else {alone[("A", 1)]}):
+                    why = "the paused evaluation returned a decision that is neither the old nor the new policy's decision for its request"
+                elif d2 != alone[(cur, 2)]:
+                    why = "an evaluation started after the replacement had returned (or with no replacement at all) did not return the current policy's decision"
+                elif later != [alone[(cur, 1)], alone[(cur, 2)]]:
+                    why = "after everything had returned, a fresh evaluation did not return the current policy's decision (a stale or foreign decision was left in the cache)"
+                if why:
+                    run.spec_failures.append({"part": "inside the decision", "pause_at_call": k, "of": total, "replacement_in_between": replace, "cache": cached,
+                                              "policy_A": A, "policy_B": B, "paused_request": "read doc/1", "other_request": "write file/7",
+                                              "paused_returned": box.get("d1"), "other_returned": d2, "afterwards": later,
+                                              "alone": {f"{n}{i}": v for (n, i), v in alone.items()}, "spec": why})
+                    return
+
+
 def check(run: lib.Run, audit: dict) -> int:
     run.rule = ("schedules of access steps on real threads: 1 evaluator × 1 set_policy (all schedules with ≤2 (quick) / ≤4 (thorough) pre-emptions), "
                 "2 evaluations × A→B→A and 2 evaluators (two requests) × 1 set_policy (≤1 / ≤2 pre-emptions), a policy set replaced by a single "
                 "policy and single → set → single, plus random schedules, with the built-in "
-                "and a dict cache; after each schedule the engine is drained and probed. non-trivial = an evaluation returned and the policy was "
+                "and a dict cache; after each schedule the engine is drained and probed; an evaluation paused at every call its decision function "
+                "makes to the matcher / evaluator while another request (other action and type) is evaluated on a second thread, with and without a "
+                "replacement in between, with and without cache. non-trivial = an evaluation returned and the policy was "
                 "replaced within the schedule")
     run.assumptions = ["a single attribute load/store and a cache call are atomic in CPython; threading.Lock is a mutex (trusted base)",
                        "sha3-256 of the sorted policy JSON is injective on the policies used"]
@@ -251,6 +360,7 @@ def check(run: lib.Run, audit: dict) -> int:
     run.obligation("C09_shape: ShapeOk Generated.guardEvalMiss/Hit/SetPolicy", ok, detail if not ok else "discharged")
     run.extra["traced_programs"] = audit["facts"].get("guard_programs")
     run_cases(run, audit, scale=run.boost)
+    inside_decision_probes(run)
     violations = []
     if (run.disagreements or not ok) and not run.spec_failures:
         run_cases(run, audit, scale=6)
@@ -273,6 +383,12 @@ def check(run: lib.Run, audit: dict) -> int:
 def replay(run: lib.Run, audit: dict, path: str) -> int:
     rp = json.load(open(path))
     c = rp.get("case") or rp.get("first")
+    if c and c.get("part") == "inside the decision":
+        inside_decision_probes(run)
+        now = [f for f in run.spec_failures if f.get("part") == "inside the decision"]
+        print("now:", json.dumps(now[0], default=str)[:2000] if now else "every paused evaluation returned its own request's decision")
+        print("recorded:", json.dumps(c, default=str)[:2000])
+        return 1 if now else 0
     if c:
         snap = run_real(c["p0"], c["progs"], c["schedule"], c["cache"])
         print("now:", snap, "->", spec_check(c["p0"], c["progs"], snap))
